@@ -187,8 +187,16 @@ def check_error_body(ctx, r, fields, accept, rc, what, strict_fields=True, dynam
     if fmt not in allowed:
         ctx.mismatch('negotiation', '%s: Accept %r -> %s, acceptable by the statement: %s' % (what, accept, fmt, sorted(allowed)), rc)
         return fmt
+    raw = r.body
+    if (r.header('Content-Encoding') or '').lower() == 'gzip':
+        import gzip as _gzip
+        try:
+            raw = _gzip.decompress(raw)
+        except Exception as e:
+            ctx.mismatch('body-not-as-labelled', '%s: Content-Encoding gzip but the body does not decompress (%r)' % (what, e), rc)
+            return fmt
     try:
-        text = r.body.decode('utf-8')
+        text = raw.decode('utf-8')
     except UnicodeDecodeError as e:
         ctx.mismatch('body-not-utf8', '%s: %r' % (what, e), rc)
         return fmt
@@ -261,6 +269,7 @@ def strategy():
         'detail': opt(text), 'message': opt(text), 'error_type': opt(text), 'code': opt(st.sampled_from([400, 418, 499, 500, 599, 404])),
         'accept': st.sampled_from(ACCEPTS), 'debug': st.sampled_from([False, True, False, True, 'fallback']), 'method': st.sampled_from(['GET', 'GET', 'POST']),
         'preset': st.sampled_from([None, None, None, 'text/html', 'application/json', 'application/xml', 'text/plain', 'image/png']),
+        'stack': st.sampled_from([None, None, None, 'gzip', 'cache', 'gzip+cache']),
         'reuse': st.sampled_from([None, None, 'text/html', 'application/json', 'application/xml']),
     })
     nf = st.fixed_dictionaries({
@@ -269,6 +278,7 @@ def strategy():
         'query': st.sampled_from(['', 'q=<zq9v>', 'a="><zq9w>', '%3Czq9x%3E=1', "k='><zq9y>"]),
         'header': opt(st.sampled_from(NASTY[:12])), 'cookie': opt(st.sampled_from(['c=<zq9z>', 'k="><zq9aa>"', "s='<zq9ab>'"])),
         'accept': st.sampled_from(ACCEPTS), 'debug': st.sampled_from([False, True, False, True, 'fallback']), 'method': st.sampled_from(['GET', 'POST']),
+        'stack': st.sampled_from([None, None, None, 'gzip', 'cache', 'gzip+cache']),
     })
     uncaught = st.fixed_dictionaries({
         'kind': st.just('uncaught'), 'exc': st.sampled_from(['ValueError', 'KeyError', 'RuntimeError', 'Custom', 'UnicodeError', 'AssertionError']),
@@ -312,6 +322,11 @@ def make_app(case, cell):
         exc = {'ValueError': ValueError, 'KeyError': KeyError, 'RuntimeError': RuntimeError, 'Custom': CustomErr,
                'UnicodeError': UnicodeError, 'AssertionError': AssertionError}[c['exc']]
         raise exc(c['msg'])
+    # the response-processing built-in middlewares at application level: they must leave error responses alone
+    mws = []
+    if case.get('stack'):
+        from clastic.middleware import GzipMiddleware, HTTPCacheMiddleware
+        mws = [{'gzip': GzipMiddleware, 'cache': HTTPCacheMiddleware}[n]() for n in case['stack'].split('+')]
     if case['debug'] == 'fallback':
         # a handler that renders nothing itself: the framework's fallback rendering negotiates the format
         from clastic.errors import ErrorHandler
@@ -319,21 +334,28 @@ def make_app(case, cell):
         class HandsBack(ErrorHandler):
             def render_error(self, request, _error, **kwargs):
                 raise _error
-        return Application([Route('/http', ep_http), Route('/boom/<seg>', ep_uncaught)], error_handler=HandsBack())
-    return Application([Route('/http', ep_http), Route('/boom/<seg>', ep_uncaught)], debug=case['debug'])
+        return Application([Route('/http', ep_http), Route('/boom/<seg>', ep_uncaught)], error_handler=HandsBack(), middlewares=mws)
+    return Application([Route('/http', ep_http), Route('/boom/<seg>', ep_uncaught)], debug=case['debug'], middlewares=mws)
 
 
 _apps = {}
 
 
 def body(case, ctx):
-    cell = _apps.setdefault(('cell', case['debug']), {})
-    app = _apps.get(case['debug'])
+    akey = (case['debug'], case.get('stack'))
+    cell = _apps.setdefault(('cell',) + akey, {})
+    app = _apps.get(akey)
     if app is None:
-        app = _apps[case['debug']] = make_app(case, cell)
+        app = _apps[akey] = make_app(case, cell)
     cell['case'] = case
     accept = case['accept']
     hdrs = {} if accept is None else {'Accept': accept}
+    if 'gzip' in (case.get('stack') or ''):
+        hdrs['Accept-Encoding'] = 'gzip'
+    if 'cache' in (case.get('stack') or ''):
+        hdrs['If-None-Match'] = '*'             # a conditional request: an error is never "not modified"
+    if case.get('stack'):
+        ctx.event('behind-' + case['stack'])
     rc = case
     kind = case['kind']
     ctx.event('kind-' + kind + ('-fallback' if case['debug'] == 'fallback' else '-debug' if case['debug'] else ''))
